@@ -76,7 +76,7 @@ def build_dir():
     b = os.path.join(BUILD_REPO, "_build")
     if os.path.exists(os.path.join(b, "build.ninja")):
         return b
-    return os.path.join(CACHE, "cfg")
+    return os.path.join(CACHE, "cfg")      # created by bin/setup (offline cmake configure)
 
 
 def ensure_tool():
@@ -115,7 +115,7 @@ def compile_db():
     if entries is None:
         raise AnalysisBroken("no build tree with build.ninja at %s" % b)
     db = {}
-    broot = os.path.dirname(b)
+    broot = os.path.dirname(b) if b.endswith("/_build") else BUILD_REPO
     for e in entries:
         f = os.path.normpath(e["file"])
         if broot != REPO:
